@@ -1576,8 +1576,10 @@ func (p *PikeVM) matchesEmptyAt(haystack []byte, pos int) bool {
 	p.internalState.Queue = p.internalState.Queue[:0]
 	p.internalState.Visited.Clear()
 
-	// Check if we can reach a match state via epsilon transitions only
-	var stack []StateID
+	// Check if we can reach a match state via epsilon transitions only.
+	// The pre-allocated epsilon stack is reused (and handed back, possibly
+	// grown) so that the check does not allocate on every call.
+	stack := p.internalState.epsilonStack[:0]
 	stack = append(stack, p.nfa.StartAnchored())
 	p.internalState.Visited.Insert(uint32(p.nfa.StartAnchored()))
 
@@ -1587,6 +1589,7 @@ func (p *PikeVM) matchesEmptyAt(haystack []byte, pos int) bool {
 		stack = stack[:len(stack)-1]
 
 		if p.nfa.IsMatch(id) {
+			p.internalState.epsilonStack = stack[:0]
 			return true
 		}
 
@@ -1632,6 +1635,7 @@ func (p *PikeVM) matchesEmptyAt(haystack []byte, pos int) bool {
 		}
 	}
 
+	p.internalState.epsilonStack = stack[:0]
 	return false
 }
 
